@@ -74,6 +74,13 @@ def gen_scenario(rng, family, idx, mode):
             if v["y"] % 10 == 9:
                 v["y"] = 0
         init.append(v)
+    if family in ("C04", "C09") and not (sc["skip"] or sc["delay"]) and rng.random() < 0.12:
+        # a failing start: the initial stack does not verify (or does not stack), Config itself must fail
+        bad = rng.choice(init)
+        if rng.random() < 0.8:
+            bad[rng.choice(["x", "y"])] = 10 * (init.index(bad) + 1) + 9
+        else:
+            bad["u"] = True
     sc["init"] = init
     procs = {}
     nrep = {"C04": (2, 4), "C05": (2, 5), "C06": (2, 4), "C07": (2, 4), "C08": (1, 4), "C09": (1, 4)}[family]
